@@ -95,7 +95,7 @@ def violates(prop, kind, res, qual, w):
 
 def check(prop, tier, args):
     rep = Report(prop, tier, 'proof', './check %s --tier %s' % (prop, tier), seed=int(os.environ.get('VERIF_SEED', '0') or 0))
-    use_cache = tier == 'quick' and os.environ.get('VERIF_NO_CACHE', '') == ''
+    use_cache = os.environ.get('VERIF_NO_CACHE', '') == ''     # the tier is part of the cache key
     mods = args.modules or None
     results = run_sweep(tier, mods, use_cache)
     sf = still_fails_factory(prop)
